@@ -327,6 +327,14 @@ def NonDestChecks (p : Policy) (r : Req) : Prop :=
   (anyChannel r.outs = true → r.segwit.all id = true ∧ r.nInputs = r.segwit.length) ∧
   (∀ o ∈ r.outs, Accepted o ∨ classify o = .unknown)
 
+/-- what the output loop credits for one output under an arbitrary filter -/
+def credit (flt : Filter) (o : Out) : Nat :=
+  match classifyStep flt o with
+  | .add v => v
+  | _ => 0
+
+def sumCredit (flt : Filter) (outs : List Out) : Nat := (outs.map (credit flt)).sum
+
 /-- the tags a non-permissive filter must keep as errors for the C08 argument -/
 def Filter.Strict (f : Filter) : Prop :=
   f.nonMalleable = true ∧ f.noUnknown = true ∧ f.matchCommitment = true ∧ f.outputScript = true ∧
